@@ -100,6 +100,8 @@ type TwShard struct {
 	RP       string
 	IndexID  uint64
 	HasIndex bool
+	DataPath string
+	WalPath  string
 }
 
 func TwShards(e Engine) []TwShard {
@@ -117,7 +119,8 @@ func TwShards(e Engine) []TwShard {
 					continue
 				}
 				x := TwShard{DB: db, PT: pt, ID: id, Opened: sh.IsOpened(), Expired: sh.IsExpired(),
-					Duration: sh.durationInfo.Duration, GroupID: sh.ident.ShardGroupID, Start: sh.startTime, End: sh.endTime, RP: sh.ident.Policy}
+					Duration: sh.durationInfo.Duration, GroupID: sh.ident.ShardGroupID, Start: sh.startTime, End: sh.endTime, RP: sh.ident.Policy,
+					DataPath: sh.dataPath, WalPath: sh.walPath}
 				if sh.indexBuilder != nil {
 					x.HasIndex = true
 					x.IndexID = sh.indexBuilder.GetIndexID()
